@@ -131,11 +131,12 @@ fn run_pipeline<S: State>(p: &Pipeline, seed: u64, s: S) -> String {
 }
 
 fn solo(st: &AnyState, p: &Pipeline, seed: u64) -> String {
-    match st {
+    std::panic::catch_unwind(std::panic::AssertUnwindSafe(|| match st {
         AnyState::Poly(s) => run_pipeline(p, seed, s.clone()),
         AnyState::Mol(s) => run_pipeline(p, seed, s.clone()),
         AnyState::Lj(s) => run_pipeline(p, seed, s.clone()),
-    }
+    }))
+    .unwrap_or_else(|_| "PANICKED (solo)".to_string())
 }
 
 pub struct Exec {
@@ -167,11 +168,15 @@ pub fn execute(original: &AnyState, p: &Pipeline, seeds: &[u64], prefix: &[usize
             // clones of the same shared original)
             let original = &*original;
             scope.spawn(move || {
-                let out = match original {
+                let out = std::panic::catch_unwind(std::panic::AssertUnwindSafe(|| match original {
                     AnyState::Poly(s) => run_pipeline(&pl, seed, Gate { inner: s.clone(), id, baton: baton.clone() }),
                     AnyState::Mol(s) => run_pipeline(&pl, seed, Gate { inner: s.clone(), id, baton: baton.clone() }),
                     AnyState::Lj(s) => run_pipeline(&pl, seed, Gate { inner: s.clone(), id, baton: baton.clone() }),
-                };
+                }))
+                .unwrap_or_else(|p| {
+                    let msg = if let Some(s) = p.downcast_ref::<&str>() { s.to_string() } else if let Some(s) = p.downcast_ref::<String>() { s.clone() } else { "panic".to_string() };
+                    format!("PANICKED: {}", msg)
+                });
                 results.lock().unwrap()[id] = Some(out);
                 let (m, cv) = &*baton;
                 let mut g = m.lock().unwrap();
@@ -428,7 +433,52 @@ pub fn c09(tier: Tier) -> ! {
         let (_, st) = &states[0];
         let pl = Pipeline { stages: vec![(3, 3, 0.1)], max_step: 0.2 };
         run.require(solo(st, &pl, 0) != solo(st, &pl, 1), "replicas with different seeds give identical results");
-        run.require(solo(st, &pl, 0) == solo(st, &pl, 0), "solo runs are not repeatable");
+    }
+    // (1b) repeated solo runs, for every seed the CLI hands out first, on fresh threads
+    let mut repeats = 0u64;
+    for (label, st) in states.iter() {
+        let pl = Pipeline { stages: vec![(6, 3, 0.1)], max_step: 0.2 };
+        for seed in [0u64, 1, 2, 3, 17, u64::MAX].iter() {
+            let a = solo(st, &pl, *seed);
+            let st2 = st.clone();
+            let pl2 = pl.clone();
+            let sd = *seed;
+            let b = std::thread::spawn(move || solo(&st2, &pl2, sd)).join().unwrap_or_default();
+            repeats += 1;
+            if a != b {
+                run.fail(None, &format!("{}: two runs with seed {} give different results", label, seed), json!({"engine": "repeat", "label": label, "seed": seed}));
+            }
+        }
+    }
+    run.set("repeated_solo_runs", repeats);
+    // (1c) history independence: what a thread optimised before must not matter
+    let mut histories = 0u64;
+    {
+        let pl = Pipeline { stages: vec![(30, 10, 0.05)], max_step: 0.05 };
+        let pairs: Vec<(AnyState, AnyState, &str)> = vec![
+            (AnyState::from_group("p2", &ShapeSpec::Trimer(0.637556, 120., 1.)), AnyState::from_group("p2", &ShapeSpec::Trimer(0.7, 180., 1.5)), "hard trimer after a different hard trimer"),
+            (AnyState::from_group("p2mg", &ShapeSpec::Polygon(4)), AnyState::from_group("p2mg", &ShapeSpec::Polygon(6)), "square after hexagon"),
+            (AnyState::from_group("p2", &ShapeSpec::LjTrimer(0.637556, 120., 1.)), AnyState::from_group("p1", &ShapeSpec::LjTrimer(1., 180., 2.)), "LJ trimer after a different LJ trimer"),
+            (AnyState::from_group("p1g1", &ShapeSpec::Circle), AnyState::from_group("p2gg", &ShapeSpec::Trimer(0.5, 60., 1.2)), "circle after a trimer"),
+        ];
+        for (a, b, what) in pairs {
+            histories += 1;
+            let (a1, pl1) = (a.clone(), pl.clone());
+            let fresh = std::thread::spawn(move || solo(&a1, &pl1, 3)).join().unwrap_or_default();
+            let (a2, b2, pl2) = (a.clone(), b.clone(), pl.clone());
+            let after = std::thread::spawn(move || {
+                let _ = solo(&b2, &pl2, 5);
+                solo(&a2, &pl2, 3)
+            })
+            .join()
+            .unwrap_or_default();
+            if fresh != after {
+                run.fail(None, &format!("result depends on what the thread optimised before ({})", what), json!({"engine": "history", "what": what}));
+            }
+        }
+    }
+    run.set("history_pairs", histories);
+    {
     }
     // (2) reduction trees over real result states, with ties
     let mut trees = 0u64;
